@@ -794,7 +794,8 @@ class MembersType(Type):
         self.encode_root(data, encoder)
 
         if (encoder.are_all_bits_zero()
-            and (encoder.number_of_bits == len(self.optionals))):
+            and (encoder.chunks_number_of_bits + encoder.number_of_bits
+                 == len(self.optionals))):
             encoder.reset()
 
     def encode_member(self, member, data, encoder, encode_default=False):
